@@ -712,7 +712,20 @@ func runForward(t *tr.Trace, r *tr.Rand, n int) {
 			if stream == "events" || r.Chance(1, 6) {
 				switch r.Pick(4, 3, 2, 3, 2, 1) {
 				case 0: // feedback says there is room / congestion
-					switch r.Pick(1, 1, 1) {
+					switch r.Pick(2, 2, 2, 1) {
+					case 3:
+						// exactly at, just below and just above the two thresholds
+						// of adjustLayer: rate*8 against max*7/8 and max*3/2
+						m := uint64(r.Range(1, 6000)) * 64
+						rate := m * 7 / 64
+						if r.Bool() {
+							rate = m * 3 / 16
+						}
+						rate += uint64(r.Range(0, 2))
+						if rate > 0 {
+							rate--
+						}
+						h.rates(uint32(rate), "524288", 524288, false, m)
 					case 0:
 						h.rates(uint32(r.Range(0, 1000)), "524288", 524288, false, uint64(r.Range(100000, 10000000)))
 					case 1:
